@@ -12,6 +12,8 @@ mod awrite;
 #[cfg(feature = "io")]
 mod bio;
 mod alloc;
+#[cfg(feature = "std")]
+mod sinks;
 
 #[global_allocator]
 static GLOBAL: alloc::Counting = alloc::Counting;
